@@ -1,8 +1,6 @@
 #!/bin/bash
-# runs every seeded change against the quick check of the property it breaks; prints one line per change
+# runs every seeded change against the quick check of the property it breaks (scratch worktrees, 4 at a time; /repo untouched);
+# prints one line per change.  usage: selftest/all_seeded.sh [jobs]
 cd /verif
-for d in seeded/*/; do
-  n=$(basename $d); p=$(python3 -c "import json;print(json.load(open('$d/meta.json'))['breaks_property'])")
-  out=$(selftest/try_patch.sh $d/patch.diff $p 2>&1 | grep "^$p rc=")
-  echo "$n :: $out"
-done
+J=${1:-4}
+ls -d seeded/*/ | xargs -P$J -I{} sh -c 'd={}; p=$(python3 -c "import json;print(json.load(open(\"$d/meta.json\"))[\"breaks_property\"])"); selftest/try_wt.sh $d $p 2>&1 | grep " :: "'
